@@ -404,6 +404,156 @@ func TestVerifC05(t *testing.T) {
 		c05Background(rep, k)
 	}
 	c05HungQueryLog(rep)
+	c05SlowUpstream(rep)
+}
+
+// c05SlowUpstream: the upstream exchange of one client's request is pending for
+// seconds (the upstream is slow for that name only) when an admin operation
+// that reconfigures the server is issued.  Requests of other clients - for a
+// name answered locally and for names the upstream answers at once - must go
+// on being served meanwhile, and the admin operation must not wait for the
+// slow exchange.
+func c05SlowUpstream(rep *verifkit.Report) {
+	rng := rep.Rand("slow-upstream")
+	up, err := sysStartUpstream(rng.Int63())
+	if err != nil {
+		rep.Inconcl("mock upstream: " + err.Error())
+
+		return
+	}
+	defer up.Stop()
+	up.LogName = true
+	const hold = 8 * time.Second
+	up.SetSlowDelay(hold)
+	in, err := sysStart("", sysConfOpts{UpstreamPort: up.Port, QLogMemSize: 50})
+	if err != nil {
+		rep.Inconcl("slow-upstream phase start: " + err.Error())
+
+		return
+	}
+	defer func() {
+		in.Kill()
+		_ = os.RemoveAll(in.Dir)
+	}()
+	if st, b, e := in.API("POST", "/control/filtering/set_rules", map[string]any{"rules": []string{"||local.slowphase.verif.test^"}}); e != nil || st != 200 {
+		rep.Inconcl(fmt.Sprintf("slow-upstream phase set_rules: %d %v %s", st, e, b))
+
+		return
+	}
+	ops := []struct {
+		name, method, path string
+		body               any
+	}{
+		{"protection-on", "POST", "/control/protection", map[string]any{"enabled": true}},
+		{"access-set", "POST", "/control/access/set", map[string]any{"allowed_clients": []string{}, "disallowed_clients": []string{"203.0.113.250"}, "blocked_hosts": []string{"version.bind"}}},
+		{"protection-pause-1s", "POST", "/control/protection", map[string]any{"enabled": false, "duration": 1000}},
+		{"set_rules", "POST", "/control/filtering/set_rules", map[string]any{"rules": []string{"||local.slowphase.verif.test^", "||other.slowphase.verif.test^"}}},
+	}
+	iters := verifkit.Pick(3, 12)
+	for it := 0; it < iters; it++ {
+		op := ops[it%len(ops)]
+		slowName := fmt.Sprintf("slow%d-%d.slowphase.verif.test.", it, rng.Intn(1000000))
+		var swg sync.WaitGroup
+		slowOK := make([]bool, 2)
+		t0 := time.Now()
+		for g := 0; g < 2; g++ {
+			swg.Add(1)
+			go func(g int) {
+				defer swg.Done()
+				resp, qerr := sysQuery(in, "127.0.0.1", g == 1, slowName, dns.TypeA, hold+6*time.Second)
+				slowOK[g] = qerr == nil && resp != nil
+			}(g)
+		}
+		// Wait until the upstream holds the slow question.
+		pending := false
+		for w := 0; w < 100 && !pending; w++ {
+			time.Sleep(20 * time.Millisecond)
+			pending = up.Asked(slowName) > 0
+		}
+		if !pending {
+			swg.Wait()
+			rep.Inconcl("slow-upstream phase: the slow question never reached the upstream")
+
+			return
+		}
+		opDone := make(chan time.Duration, 1)
+		go func() {
+			ts := time.Now()
+			_, _, _ = in.API(op.method, op.path, op.body)
+			opDone <- time.Since(ts)
+		}()
+		time.Sleep(150 * time.Millisecond)
+		// Probes, all sent while the slow exchange is still pending.
+		var okLocalN, okFastN atomic.Int64
+		var pwg sync.WaitGroup
+		sent := 12
+		for p := 0; p < sent; p++ {
+			pwg.Add(1)
+			go func(p int) {
+				defer pwg.Done()
+				name := fmt.Sprintf("fast%d-%d.slowphase.verif.test.", it, p)
+				if p%2 == 0 {
+					name = fmt.Sprintf("p%d-%d.local.slowphase.verif.test.", it, p)
+				}
+				if resp, qerr := sysQuery(in, "127.0.0.1", p%4 < 2, name, dns.TypeA, 2500*time.Millisecond); qerr == nil && resp != nil {
+					if p%2 == 0 {
+						okLocalN.Add(1)
+					} else {
+						okFastN.Add(1)
+					}
+				}
+			}(p)
+			time.Sleep(100 * time.Millisecond)
+		}
+		pwg.Wait()
+		okLocal, okFast := int(okLocalN.Load()), int(okFastN.Load())
+		probesEnd := time.Since(t0)
+		var opTook time.Duration
+		select {
+		case opTook = <-opDone:
+		case <-time.After(hold + 10*time.Second):
+			opTook = -1
+		}
+		swg.Wait()
+		rep.Eval(true, fmt.Sprintf("slow-upstream|%d|%s", it, op.name))
+		rep.Class("admin_op_during_pending_upstream_exchange:" + op.name)
+		rep.EventN("probes_during_pending_upstream_exchange", sent)
+		rep.EventN("probes_during_pending_upstream_exchange_served", okLocal+okFast)
+		if slowOK[0] || slowOK[1] {
+			rep.Event("slow_exchange_answered_in_the_end")
+		}
+		if okLocal+okFast < 3 && probesEnd <= hold-500*time.Millisecond {
+			// Did serving come back once the slow exchange was over?
+			after := 0
+			for p := 0; p < 5; p++ {
+				if resp, qerr := sysQuery(in, "127.0.0.1", false, fmt.Sprintf("after%d-%d.slowphase.verif.test.", it, p), dns.TypeA, 5*time.Second); qerr == nil && resp != nil {
+					after++
+				}
+			}
+			dump := ""
+			if after == 0 {
+				dump = in.Dump()
+			}
+			summary, lockers := sysSummarizeDump(dump)
+			rep.Violate("stall:admin-operation-during-pending-upstream-exchange:"+op.name,
+				fmt.Sprintf("while one request's upstream exchange was pending (upstream answers that name after %s) and %s %s was issued, only %d of %d requests of other kinds (%d answered locally, %d by the upstream at once) were served within 2.5 s each; after the slow exchange ended %d/5 were served", hold, op.method, op.path, okLocal+okFast, sent, okLocal, okFast, after),
+				map[string]any{"admin_operation": op, "admin_operation_took": opTook.String(), "probes_sent_until": probesEnd.String(), "goroutines_by_state_and_product_frames": summary, "stacks_blocked_on_mutexes": lockers})
+
+			return
+		}
+		if probesEnd > hold-500*time.Millisecond {
+			// The machine was too slow for the probes to fall inside the
+			// pending exchange; nothing is concluded from this iteration.
+			rep.Class("slow_upstream_iterations_with_probes_outlasting_the_exchange")
+		}
+	}
+	if rep.EventCount("probes_during_pending_upstream_exchange") < 12 {
+		rep.Inconcl(fmt.Sprintf("slow-upstream phase: only %d probes were sent while an exchange was pending", rep.EventCount("probes_during_pending_upstream_exchange")))
+	}
+	log := in.Log()
+	if loc := c05PanicRe.FindStringIndex(log); loc != nil {
+		rep.Violate("server-crash:slow-upstream", "the server process panicked or died with a fatal error", map[string]any{"log": log[loc[0]:min(loc[0]+6000, len(log))]})
+	}
 }
 
 // c05HungQueryLog puts a FIFO without a reader at the path of the query-log
